@@ -458,6 +458,9 @@ def _contract_with_sliced_unroll(*args, unroll, optimize, checkpoint_loop=False,
         result = partial if result is None else result + partial
         if _cfg.profile: _cfg.backend.nvtx.range_pop()
 
+    if result is None:  # an unrolled leg without any sector: no iterations, contract without unrolling
+        ts, inds, conjs, order = _convert_path_to_ncon_args(*args, optimize=optimize)
+        result = ncon(ts, inds, conjs=conjs, order=order)
     return result
 
 
